@@ -98,6 +98,39 @@ def run(ctx):
         for j, ev in enumerate(evs):
             traces.append({"id": "s%d.%d" % (i, j), "events": [ev]})
             ctx.count_case((i, j, json.dumps(ev.get("orig", ev.get("chunks")), sort_keys=True)[:5000]), nontrivial=nontriv)
+    # TWIN instruments (byte-identical embedded effects) in one project, and the same file loaded twice with an edit of the
+    # first copy's effect in between: each loaded instrument has its own effect (judged like a C06 edit)
+    from .c06 import catalogue
+    for i in range(3 if q else 30):
+        sm = gen.rand_module(rnd, cl["Sampler"], spec, depth=0, in_project=False)
+        ecls = cl[rnd.choice(["Amplifier", "Filter", "Echo", "Reverb"])]
+        sm.effect = api.Synth(gen.rand_module(rnd, ecls, spec, 0, in_project=False))
+        pj = api.Project()
+        pj.attach_module(sm)
+        pj.attach_module(sm.clone())
+        data = pj.read()
+        out, lq = fmt.load(data)
+        if lq is None:
+            continue
+        base, leaves = catalogue(lq, spec, rnd)
+        inner = [lf for lf in leaves if lf[1][:2] == ["modules", 2] and "effect" in lf[1]]
+        rnd.shuffle(inner)
+        events = [{"op": "base", "obj": base}]
+        for kind, pth, fn, newv in inner[:5]:
+            out, o2 = fmt.load(data)
+            try:
+                fn(o2)
+                fmt.load(data)                      # the same bytes loaded once more while the edited copy is alive
+                out, o3 = fmt.load(o2.read())
+            except Exception as e:
+                out, o3 = "edit-raised:" + type(e).__name__, None
+            events.append({"op": "edit", "kind": kind, "path": pth, "value": newv, "outcome": out, "w": False, "edited": {"kind": "none"}, "chunks": [],
+                           "after": fmt.projection.project_any(o3, spec, True) if o3 is not None else {"kind": "none"}})
+            # ... and a FRESH load of the original bytes afterwards shows the original effect
+            events.append({"op": "load", "chunks": fmt.tlv.to_json_nested(data), "outcome": "ok",
+                           "obj": fmt.projection.project_any(fmt.load(data)[1], spec, True), "overflow": []})
+            ctx.count_case(("twin-effects", i, json.dumps(pth)), nontrivial=True)
+        traces.append({"id": "twin-effects%d" % i, "events": events})
     # the shipped fixture and its variants
     for name, data in fmt.fixtures():
         if "sampler" in name:
